@@ -331,7 +331,7 @@ CLAIMED = {
                 "vertices, succeeds on closed boundaries and errs only when the walk leaves the boundary. Tie: classify on anchored grids, "
                 "every WF 2-map n<=3 x anchor patterns, real capture meshes re-loaded into both drivers, sew/unsew on anchored maps; the "
                 "capture phase itself (points of interest anchored to nodes, curves/surfaces) is evaluated by the oracle on the real code. Props/C17Surf.lean: after Ok, faces reachable from each other without crossing a curve-anchored edge carry the same Surface id and two faces with the same id are linked by a chain of edges anchored to it (regions separated by curves get different ids).",
-        "note": "Partial: classification (incl. surface ids per region, C17Surf), the origin-shift loop (C17_no_vertex_on_grid_line) and the "
+        "note": "The on-grid-line tests of detect_overlaps (which coordinate, which origin component, which modulus cx / cy, the is_zero test, the joining operators) and the grid sizing of compute_overlapping_grid of grisubal/routines/pre_processing.rs are RE-TRANSLATED from the source on every run (Gen/PreProc.lean, tools/gen_pre.py) and tied to the model (Props/C17Gen.lean: C17_gen_on_grid, C17_gen_on_grid_axes, C17_gen_refl_guard, C16_gen_grid_origin, C16_gen_grid_cells); step 1 of the capture pipeline likewise (Gen/GCross.lean, Props/C16Gen.lean: C16_gen_cross_step). Partial: classification (incl. surface ids per region, C17Surf), the origin-shift loop (C17_no_vertex_on_grid_line) and the "
                 "capture pipeline steps 1-5 (shared with C16, with the Node anchors written by the edge insertion) are modelled, proved "
                 "and tied through the hooks; C17_poi_are_node_vertices (corollary of the C16 chain theorem): a point of interest on a chain between two "
                 "crossings is a vertex of the result anchored Node(j); the rest of the geometric part of capture (curves, surfaces end "
